@@ -244,6 +244,19 @@ fn one_case(t: i32, i: usize, ctx: &Ctx, rep: &mut Report) {
         }
     }
 
+    // every 6th case of the ring / patch types: vertex-less rings / patches after the first one
+    // (they contribute nothing to any box)
+    if i % 6 == 5 && (gen::is_polygon(t) || t == 31) {
+        for inp in inputs.iter_mut() {
+            if r.chance(0.6) {
+                let pos = r.usize_in(1, inp.len());
+                let kind = if t == 31 { r.below(6) as i32 } else { r.below(2) as i32 };
+                inp.insert(pos, (kind, vec![]));
+                rep.count("shapes_with_a_vertexless_ring_or_patch", 1);
+            }
+        }
+    }
+
     rep.eval();
     rep.class(&format!("{}:{}", type_name(t), ["plain", "grid", "special-0.3", "special-1.0", "one-dimension-constant"][regime]));
     let built = panicmon::catch(|| inputs.iter().map(|inp| build_from_parts(t, inp, r.chance(0.3))).collect::<Vec<Shape>>());
